@@ -1071,6 +1071,14 @@ func c08CloseAlwaysCloses(c *Ctx) {
 					}
 					break
 				}
+				// the test itself, or a predicate helper that returns it (hasTransport())
+				if hc, ok := cond.(*ssa.Call); ok {
+					if sc := ir.StaticCallee(hc); sc != nil && c.P.IsLib(sc) && len(sc.Blocks) == 1 {
+						if ret, ok := sc.Blocks[0].Instrs[len(sc.Blocks[0].Instrs)-1].(*ssa.Return); ok && len(ret.Results) == 1 {
+							cond = ret.Results[0]
+						}
+					}
+				}
 				if bin, ok := cond.(*ssa.BinOp); ok {
 					v, other := bin.X, bin.Y
 					if ir.IsNilConst(v) {
